@@ -18,7 +18,13 @@ pub struct Base {
     pub rules: Vec<(String, St)>,
 }
 impl Base {
+    /// names shown under a status; a name defined several times is shown under PASS / FAIL when some definition passed /
+    /// failed, and under SKIP only when every definition was skipped (the summary table's rule)
     fn set(&self, s: St) -> BTreeSet<String> {
+        self.rules.iter().filter(|(n, x)| *x == s && (s != St::Skip || self.rules.iter().all(|(n2, x2)| n2 != n || *x2 == St::Skip))).map(|(n, _)| n.clone()).collect()
+    }
+    /// names with some definition of that status (detail lines are per definition)
+    fn raw_set(&self, s: St) -> BTreeSet<String> {
         self.rules.iter().filter(|(_, x)| *x == s).map(|(n, _)| n.clone()).collect()
     }
     fn exit(&self) -> i32 {
@@ -87,6 +93,7 @@ fn partition_of(fr: &FileRep) -> Vec<(String, St)> {
     l.extend(fr.not_applicable.iter().map(|n| (bare(n), St::Skip)));
     l.extend(fr.not_compliant.iter().map(|(n, _)| (bare(n), St::Fail)));
     l.sort();
+    l.dedup(); // a name defined several times is listed once per status
     l
 }
 
@@ -123,6 +130,7 @@ pub fn check_config(cfg: &Config, text: &str, dj: &str, base: &Base, json_leaf_c
         }
         let mut want_sorted = base.rules.clone();
         want_sorted.sort();
+        want_sorted.dedup();
         match cfg.fmt {
             "sls" | "json" | "yaml" => {
                 let pr = parse_plain(&o.out, cfg.fmt);
@@ -166,7 +174,7 @@ pub fn check_config(cfg: &Config, text: &str, dj: &str, base: &Base, json_leaf_c
                     bad("summary-table", "summary table printed with -S none".into());
                 }
                 if cfg.fmt == "sls" {
-                    if !pr.detail_pass.is_subset(&base.set(St::Pass)) || !pr.detail_skip.is_subset(&base.set(St::Skip)) || !pr.detail_fail.is_subset(&base.set(St::Fail)) {
+                    if !pr.detail_pass.is_subset(&base.raw_set(St::Pass)) || !pr.detail_skip.is_subset(&base.raw_set(St::Skip)) || !pr.detail_fail.is_subset(&base.raw_set(St::Fail)) {
                         bad("detail-lines", format!("detail lines compliant={:?} not-applicable={:?} non-compliant={:?}, baseline {:?}", pr.detail_pass, pr.detail_skip, pr.detail_fail, base.rules));
                     }
                 } else {
@@ -294,6 +302,7 @@ pub fn check_multi(files: &[File], dj: &str, acc: &mut Acc) {
     let want_exit = if fold == St::Fail { 19 } else { 0 };
     let mut want_sorted = all_rules.clone();
     want_sorted.sort();
+    want_sorted.dedup();
     let run = |extra: &[&str]| {
         let mut a = sv(&["validate"]);
         for (k, t) in texts.iter().enumerate() {
@@ -408,6 +417,77 @@ pub fn check_multi(files: &[File], dj: &str, acc: &mut Acc) {
     }
 }
 
+/// one rules file against two data files in one run: every rendering gives, per data file, the verdicts of that file alone
+pub fn check_two_data(file: &File, dj1: &str, dj2: &str, acc: &mut Acc) {
+    let text = print_file(file);
+    let mut bases = vec![];
+    for dj in [dj1, dj2] {
+        match lib_record(&text, dj).map(|r| obs_from_record(&r)) {
+            Ok(Obs::Ok(f, rs)) => bases.push(Base { file: f, rules: rs }),
+            _ => return,
+        }
+    }
+    let want_exit = if bases.iter().any(|b| b.file == St::Fail) { 19 } else { 0 };
+    for fmt in ["plain", "plain-v", "json", "yaml"] {
+        let mut a = sv(&["validate", "-r"]);
+        a.push(put("c07d/r.guard", &text));
+        a.push("-d".into());
+        a.push(put("c07d/0_first.json", dj1));
+        a.push("-d".into());
+        a.push(put("c07d/1_second.json", dj2));
+        match fmt {
+            "plain" => a.extend(sv(&["-S", "all"])),
+            "plain-v" => a.extend(sv(&["-S", "all", "-v"])),
+            f => a.extend(sv(&["--structured", "-o", f, "-S", "none"])),
+        }
+        let o = cli_inproc(&a, "");
+        acc.traces += 1;
+        acc.nontrivial += 1;
+        let mut viols: Vec<(String, String)> = vec![];
+        if o.panic.is_some() {
+            viols.push((format!("two-data-panic:{}", fmt), format!("{:?}", o.panic)));
+        } else {
+            if o.code != Ok(want_exit) {
+                viols.push((format!("two-data-exit-code:{}", fmt), format!("exit {:?} but the files alone are {:?} / {:?}", o.code, bases[0].file, bases[1].file)));
+            }
+            let want: Vec<(Option<St>, BTreeSet<String>, BTreeSet<String>, BTreeSet<String>)> = bases.iter().map(|b| (Some(b.file), b.set(St::Pass), b.set(St::Fail), b.set(St::Skip))).collect();
+            if fmt.starts_with("plain") {
+                let pr = parse_plain(&o.out, "sls");
+                let got: Vec<(Option<St>, BTreeSet<String>, BTreeSet<String>, BTreeSet<String>)> = pr.tables.iter().map(|t| (t.status, t.pass.iter().cloned().collect(), t.fail.iter().cloned().collect(), t.skip.iter().cloned().collect())).collect();
+                let want_nonempty: Vec<_> = want.iter().zip(bases.iter()).filter(|(_, b)| !b.rules.is_empty()).map(|(w, _)| w.clone()).collect();
+                if got != want_nonempty {
+                    viols.push((format!("two-data-tables:{}", fmt), format!("tables {:?}, the files alone give {:?}", got, want_nonempty)));
+                }
+            } else {
+                let reps = if fmt == "json" { parse_structured_json(&o.out) } else { parse_structured_yaml(&o.out).map(|x| x.0) };
+                match reps {
+                    Err(e) => viols.push((format!("two-data-not-well-formed:{}", fmt), e)),
+                    Ok(reps) => {
+                        for (k, nm) in ["0_first.json", "1_second.json"].iter().enumerate() {
+                            match reps.iter().find(|r| r.name.ends_with(nm)) {
+                                None => viols.push((format!("two-data-report-missing:{}", fmt), format!("no report for {}", nm))),
+                                Some(d) => {
+                                    let mut w = bases[k].rules.clone();
+                                    w.sort();
+                                    w.dedup();
+                                    let mut g = partition_of(d);
+                                    g.dedup();
+                                    if g != w || d.status != Some(bases[k].file) {
+                                        viols.push((format!("two-data-report:{}", fmt), format!("report for {} lists {:?} status {:?}; alone {:?} {:?}", nm, g, d.status, w, bases[k].file)));
+                                    }
+                                }
+                            }
+                        }
+                    }
+                }
+            }
+        }
+        for (sig, what) in viols {
+            acc.violate(&sig, format!("{} | rules `{}` data {} / {}", what, text.trim(), dj1, dj2), json!({"kind":"cli","argv":a,"stdin":"","files":{"rules":text,"data":[dj1,dj2]},"expected":"each data file as when validated alone","observed":what}));
+        }
+    }
+}
+
 /// one (rules text, document): every output configuration against the library's verbose record
 pub fn check_pair_all_configs(text: &str, dj: &str, cfgs: &[Config], acc: &mut Acc) {
     let text = text.to_string();
@@ -432,6 +512,7 @@ pub fn check_pair_all_configs(text: &str, dj: &str, cfgs: &[Config], acc: &mut A
                 Ok(fr) => {
                     let mut w = base.rules.clone();
                     w.sort();
+                    w.dedup();
                     if partition_of(&fr) != w || fr.status != Some(base.file) {
                         acc.violate("library-report", format!("run_checks(verbose=false) reports {:?} {:?}, record says {:?} {:?}; rules `{}` data {}", partition_of(&fr), fr.status, w, base.file, text.trim(), dj), json!({"kind":"lib","rules":text,"data":dj,"expected":format!("{:?}", w),"observed":format!("{:?}", partition_of(&fr))}));
                     }
@@ -519,6 +600,34 @@ pub fn run(tier: &str) -> i32 {
     rep.extra.insert("special_character_pairs".into(), json!(sp.len()));
     let mut res = res;
     res.acc = Acc::merge(res.acc, r3.acc);
+    // ---- one rules file against two data files; names defined twice (same-name family) in every configuration
+    let mut named_progs: Vec<File> = crate::c04::extra_pool().into_iter().filter(|f| print_file(f).contains("rule u") || print_file(f).contains("rule r3")).collect();
+    let snf = crate::p2::same_name_family(false);
+    named_progs.extend(snf.iter().step_by(if thorough { 5 } else { 41 }).cloned());
+    let dsel: Vec<String> = docs_quick().iter().step_by(if thorough { 3 } else { 6 }).map(|d| d.json()).collect();
+    let mut td: Vec<(usize, usize, usize)> = vec![];
+    for pi in 0..named_progs.len() {
+        for a in 0..dsel.len() {
+            for b2 in 0..dsel.len() {
+                if a != b2 {
+                    td.push((pi, a, b2));
+                }
+            }
+        }
+    }
+    let r4 = crate::par::run(td.len(), rep.seed as u64, crate::par::deadline_secs(if thorough { 900 } else { 20 }), Acc::new, |k, acc| {
+        let (pi, a, b2) = td[k];
+        check_two_data(&named_progs[pi], &dsel[a], &dsel[b2], acc);
+    }, Acc::merge);
+    rep.extra.insert("two_data_file_runs".into(), json!(r4.done));
+    let snf_texts: Vec<String> = snf.iter().step_by(if thorough { 3 } else { 29 }).map(print_file).collect();
+    let r5 = crate::par::run(snf_texts.len() * dsel.len(), rep.seed as u64, crate::par::deadline_secs(if thorough { 900 } else { 20 }), Acc::new, |k, acc| {
+        check_pair_all_configs(&snf_texts[k / dsel.len()], &dsel[k % dsel.len()], &cfgs, acc);
+    }, Acc::merge);
+    rep.extra.insert("same_name_pairs".into(), json!(r5.done));
+    let mut res = res;
+    res.acc = Acc::merge(res.acc, r4.acc);
+    res.acc = Acc::merge(res.acc, r5.acc);
     // ---- several rules files against one document: the renderings must agree with each other
     let pool_idx: Vec<usize> = (0..10).map(|k| (k * 131 + 7) % progs.len()).collect();
     let pool: Vec<File> = pool_idx.iter().enumerate().map(|(k, pi)| tag_messages(&crate::c09::rename_rules(&progs[*pi], &format!("f{}", k)), &format!("f{}", k))).collect();
